@@ -127,6 +127,40 @@ let parse_cmd (toks : string list) : cmd =
   | ["free"; a] -> CFree (o a)
   | _ -> failwith ("bad command: " ^ String.concat " " toks)
 
+(* ---------- grammar ASTs (C02 and friends) ----------
+   lines separated by '/', fields by ':', every field "x<hex>" or "-" *)
+let parse_tc (s : string) : (n * n list) option =
+  if s = "-" then None
+  else match dec s with c :: t -> Some (c, t) | [] -> None
+let parse_cline (s : string) : cline =
+  match String.split_on_char ':' s with
+  | ["B"; ws] -> LBlank (dec ws)
+  | ["C"; ind; c; text] -> LComment (dec ind, List.hd (dec c), dec text)
+  | ["S"; ind; name; post] -> LSection (dec ind, dec name, dec post)
+  | ["K"; ind; key; b1; d; b2; q; v; post; tc] ->
+      LKey { kl_indent = dec ind; kl_key = dec key; kl_b1 = dec b1;
+             kl_d = (match dec_opt d with Some (c :: _) -> Some c | _ -> None);
+             kl_b2 = dec b2; kl_val = (if q = "Q" then VQuoted (dec v) else VPlain (dec v));
+             kl_post = dec post; kl_tc = parse_tc tc }
+  | ["T"; ind; text; post; tc] -> LCont (dec ind, dec text, dec post, parse_tc tc)
+  | _ -> failwith ("bad cline: " ^ s)
+let parse_ast (s : string) : cline list =
+  if s = "" || s = "-" then [] else List.map parse_cline (String.split_on_char '/' s)
+
+let grammar_cmd st o dl cm ast path =
+  let dl = dec dl and cm = dec cm in
+  let ls = parse_ast ast in
+  let bytes = render ls in
+  let ex = expected dl ls in
+  let kf = { kf_entries = List.rev ex.p_rev; kf_spare = O; kf_groups = ex.p_groups;
+             kf_delim = (match dl with c :: _ -> c | [] -> N0);
+             kf_comment = (match cm with c :: _ -> c | [] -> n_of_int 35);
+             kf_path = Some (dec path); kf_join = false; kf_python = false;
+             kf_parse_dirs = []; kf_conf_dirs = []; kf_root_prefix = None } in
+  let st' = (o, kf) :: List.filter (fun (o', _) -> o' <> o) st in
+  (st', Printf.sprintf "wf=%d agree=%d lines=%d bytes=%s" (if wf_file dl cm ls then 1 else 0)
+          (if agrees dl cm ls then 1 else 0) (List.length ls) (enc bytes))
+
 let () =
   let ic = if Array.length Sys.argv > 1 then open_in Sys.argv.(1) else stdin in
   let st = ref [] in
@@ -137,6 +171,11 @@ let () =
       else if line = "reset" then (st := []; print_endline "reset")
       else begin
         let toks = String.split_on_char ' ' line in
+        match toks with
+        | ["grammar"; o; path; dl; cm; ast] ->
+            let (s', r) = grammar_cmd !st (nat_of_int (int_of_string o)) dl cm ast path in
+            st := s'; print_endline r
+        | _ ->
         let c = parse_cmd toks in
         let (s', r) = step !st c in
         st := s';
